@@ -114,8 +114,13 @@ def make_readers(rng, tle):
     lines[13]["prt"] = [0, 0, 0]
     lines[21]["ict"] = [0] * 30
     lines[33]["space"] = [0] * 50
+    # two unflagged lines whose tie points are all out of range (invalid coordinates, but no quality flag)
+    lines[45]["lats"] = [950000] * 51
+    lines[52]["lons"] = [2000000] * 51
     klm_bytes = l1b.build_file("gac_klm", "noaa16", start_klm, lines)
     configs.append(("gac_klm", klm_bytes, dict(tle_dir=tle_dir, tle_name=tle_name, tle_thresh=40000)))
+    # tie-point-only coordinates
+    configs.append(("gac_klm", klm_bytes, dict(tle_dir=tle_dir, tle_name=tle_name, tle_thresh=40000, interpolate_coords=False)))
     # the same spacecraft and file, but another TLE source (only the oldest element set) / no TLE file at all
     alt = os.path.join(os.path.dirname(tle_dir.rstrip("/")), "tle_alt")
     os.makedirs(alt, exist_ok=True)
@@ -178,7 +183,9 @@ def run(res, tier, seed):
         # scripted histories run first (call orders that matter for the caches: repeated cut saves around a meta read on the
         # pass that crosses midnight; counts / telemetry / dataset after a calibration), then random ones
         scripts = [(0, ["lonlat", "meta", "save_cut", "meta", "save_cut", "meta", "dataset", "save"]),
-                   (1, ["calibrated", "counts", "telemetry", "dataset", "save_cut", "meta", "angles", "lonlat"])]
+                   (1, ["calibrated", "counts", "telemetry", "dataset", "save_cut", "meta", "angles", "lonlat"]),
+                   # tie-point-only coordinates on the file with two unflagged out-of-range lines: mask / summary around every producer
+                   (2, ["mask", "lonlat", "mask", "qual", "calibrated", "mask", "angles", "mask", "dataset", "mask", "lonlat"])]
         for h in range(nh + len(scripts)):
             script = scripts[h] if h < len(scripts) else None
             k = 1 if script else rng.choice([1, 2, 3])
